@@ -273,9 +273,9 @@ class ConditionalGaussianPDF:
             CLambdaC = jnp.einsum(
                 "abcd,abed->abce", CLambda_x, MSigma_x
             )  # [R1,R,Dy,Dy]
-            delta_ln_det = jnp.linalg.slogdet(Sigma_y[:, None] - CLambdaC)[1].reshape(
-                (R,)
-            )
+            delta_ln_det = jnp.linalg.slogdet(
+                Sigma_y.reshape((self.R, p_x.R, self.Dy, self.Dy)) - CLambdaC
+            )[1].reshape((R,))
             ln_det_Sigma_xy = p_x.ln_det_Sigma + delta_ln_det
         else:
             # [R1,Dy,Dy] x [R1, Dy, D] = [R1, Dy, D]
